@@ -188,6 +188,9 @@ def run(pid, cfg, tier, seed, workdir, already_broken):
         # supplied value is within the theorem's hypothesis, the C16 oracle judges freshness against happens-before
         rs4, _ = corr.run_batch(cfg.get("families", []), max(400, 3 * n), seed + 7, os.path.join(workdir, "stale3"), policies=("stale3",))
         results += rs4
+        for sp in _scen_paths(["s25"]):
+            for sd in range(1, 61 if tier == "quick" else 600):
+                results.append(corr.run_program(sp, sd, "stale3", os.path.join(workdir, "stale3-s25-%d" % sd), family="corpus"))
     s = corr.summarize(results)
     broken = []
     if s["diverged"]:
